@@ -21,42 +21,113 @@ does not fit raises ExtractError -> stub file -> the C16 theorems do not build):
 `from_rateconst_at_T` is a classmethod ending in `return cls(<A-expr>, Ea, **kwargs)`: a synthetic function
 `(Ea, T, k) -> <A-expr>` is built from its statements `T, k = T_k`, `R = _get_R(...)` and that return.
 """
-import ast, copy
+import ast, copy, os
 from .common import parse, ExtractError, find_def, lean_str, HEADER
 from . import pyfn2lean as P
 
-FILES = ['FnRateConst.lean', 'RatesSrc.lean']
+FILES = ['FnRateConst.lean']
 ARR = 'chempy/kinetics/arrhenius.py'
 EYR = 'chempy/kinetics/eyring.py'
 HELPERS = {'_get_R': 'getR', '_get_kB_over_h': 'getKBOverH'}
 
 
+QUANTITY_ONLY = ('rescale', 'simplified', 'dimensionality', 'magnitude', 'units')   # attributes plain numbers do not have
+
+
+def _mentions_quantity_attr(node):
+    return any(isinstance(x, ast.Attribute) and x.attr in QUANTITY_ONLY for x in ast.walk(node))
+
+
 class _Rewrite(ast.NodeTransformer):
-    def __init__(self):
-        self.discarded = []      # ast.dump of the `try:` bodies dropped here -> hashed into the signature record (pyfn2lean @skipped)
+    """plain-number specialisation of the three idioms that fall outside pyfn2lean's subset (no special-casing of names):
+      * `try: <one assignment / return that touches a quantity-only attribute> except AttributeError: <fallback>` -> fallback
+      * `getattr(X, "<quantity-only attribute>", D)` -> D
+      * a call of a pure single-`return` helper defined in the same file or imported from a sibling module
+        (`from .mod import f`) -> its return expression with the arguments substituted (after the same rewrites);
+        helpers named in HELPERS keep their zero-argument translated form."""
+
+    def __init__(self, repo, rel, tree, depth=0, discarded=None):
+        self.repo, self.rel, self.tree, self.depth = repo, rel, tree, depth
+        self.discarded = [] if discarded is None else discarded     # ast.dump of everything this specialisation drops
 
     def visit_Try(self, node):
-        self.generic_visit(node)
         if (len(node.handlers) == 1 and isinstance(node.handlers[0].type, ast.Name)
                 and node.handlers[0].type.id == 'AttributeError' and not node.orelse and not node.finalbody
-                and len(node.body) == 1 and isinstance(node.body[0], ast.Assign)
-                and any(isinstance(x, ast.Attribute) and x.attr in ('rescale', 'simplified') for x in ast.walk(node.body[0]))):
-            body = node.handlers[0].body
-            self.discarded += [ast.dump(x) for x in node.body]
-            return body            # the plain-number branch (may be `pass`)
+                and len(node.body) == 1 and isinstance(node.body[0], (ast.Assign, ast.Return))
+                and _mentions_quantity_attr(node.body[0])):
+            self.discarded.append(ast.dump(node.body[0]))
+            out = []
+            for st in node.handlers[0].body:
+                r = self.visit(st)
+                out.extend(r if isinstance(r, list) else [r])
+            return out            # the plain-number branch (may be `pass`)
         raise ExtractError('line %d: try-statement of an unknown shape' % node.lineno)
+
+    def _helper(self, name):
+        """(FunctionDef, rel) of a module-level function of this file or of a sibling module it is imported from"""
+        for n in self.tree.body:
+            if isinstance(n, ast.FunctionDef) and n.name == name:
+                return n, self.rel, self.tree
+        for n in self.tree.body:
+            if isinstance(n, ast.ImportFrom) and n.level == 1 and n.module and any(a.name == name and a.asname is None for a in n.names):
+                rel = os.path.join(os.path.dirname(self.rel), n.module.replace('.', '/') + '.py')
+                try:
+                    _, t = parse(self.repo, rel)
+                except OSError:
+                    return None
+                for m in t.body:
+                    if isinstance(m, ast.FunctionDef) and m.name == name:
+                        return m, rel, t
+        return None
 
     def visit_Call(self, node):
         self.generic_visit(node)
+        if isinstance(node.func, ast.Name) and node.func.id == 'getattr' and len(node.args) == 3 and not node.keywords \
+                and isinstance(node.args[1], ast.Constant) and node.args[1].value in QUANTITY_ONLY:
+            self.discarded.append(ast.dump(node))
+            return node.args[2]
         if isinstance(node.func, ast.Name) and node.func.id in HELPERS:
             names = [a.id if isinstance(a, ast.Name) else None for a in node.args]
             if names != ['constants', 'units'] or node.keywords:
                 raise ExtractError('line %d: %s called with unexpected arguments' % (node.lineno, node.func.id))
             node.args = []
+            return node
+        if isinstance(node.func, ast.Name) and self.depth < 4:
+            h = self._helper(node.func.id)
+            if h is not None:
+                f, rel, t = h
+                g = _Rewrite(self.repo, rel, t, self.depth + 1, self.discarded).visit(copy.deepcopy(f))
+                body = [st for st in g.body if not (isinstance(st, ast.Expr) and isinstance(st.value, ast.Constant)
+                                                    and isinstance(st.value.value, str)) and not isinstance(st, ast.Pass)]
+                a = g.args
+                if (len(body) == 1 and isinstance(body[0], ast.Return) and body[0].value is not None
+                        and not a.vararg and not a.kwarg and not a.kwonlyargs and not g.decorator_list):
+                    expr = body[0].value
+                    self.discarded.append('inlined helper: ' + ast.dump(f))
+                    if rel != self.rel and any(isinstance(x, ast.Constant) and isinstance(x.value, float) for x in ast.walk(expr)):
+                        raise ExtractError('line %d: helper %s of another file contains a float literal' % (node.lineno, f.name))
+                    params = [x.arg for x in a.args]
+                    bind = {}
+                    for pname, arg in zip(params, node.args):
+                        bind[pname] = arg
+                    for kw in node.keywords:
+                        if kw.arg not in params or kw.arg in bind:
+                            raise ExtractError('line %d: bad keyword in call of %s' % (node.lineno, f.name))
+                        bind[kw.arg] = kw.value
+                    nd = len(a.defaults)
+                    for pname, d in zip(params[len(params) - nd:], a.defaults):
+                        bind.setdefault(pname, d)
+                    if set(bind) != set(params):
+                        raise ExtractError('line %d: call of %s does not bind every parameter' % (node.lineno, f.name))
+
+                    class _Sub(ast.NodeTransformer):
+                        def visit_Name(self, n):
+                            return copy.deepcopy(bind[n.id]) if isinstance(n.ctx, ast.Load) and n.id in bind else n
+                    return ast.copy_location(_Sub().visit(copy.deepcopy(expr)), node)
         return node
 
 
-def _fn(tree, cls, name):
+def _fn(tree, cls, name, repo=None, rel=None):
     """a rewritten deep copy of function `name` (inside class `cls` when given), as a one-function module"""
     scope = find_def(tree, cls) if cls else tree
     if cls and not isinstance(scope, ast.ClassDef):
@@ -67,7 +138,7 @@ def _fn(tree, cls, name):
     if not cls:
         P.find_unique_def(tree, name)          # also: not rebound at module level
     for n in hits:
-        rw = _Rewrite()
+        rw = _Rewrite(repo, rel, tree)
         f = rw.visit(copy.deepcopy(n))         # decorators are KEPT: translate_function rejects a decorated function
         m = ast.Module(body=[f], type_ignores=[])
         m.discarded = rw.discarded
@@ -75,9 +146,9 @@ def _fn(tree, cls, name):
     raise ExtractError('no function %s%s' % (cls + '.' if cls else '', name))
 
 
-def _from_rateconst(tree):
+def _from_rateconst(tree, repo, rel):
     """synthetic `def from_rateconst_A(Ea, T, k)` from ArrheniusParam.from_rateconst_at_T"""
-    m = _fn(tree, 'ArrheniusParam', 'from_rateconst_at_T')
+    m = _fn(tree, 'ArrheniusParam', 'from_rateconst_at_T', repo, rel)
     f = m.body[0]
     if [ast.unparse(d) for d in f.decorator_list] != ['classmethod']:
         raise ExtractError('from_rateconst_at_T: expected exactly the decorator @classmethod')
@@ -123,89 +194,21 @@ def generate(repo):
 
     def TF(src, mod, *a, **kw):          # the discarded `try:` bodies go into the signature record
         return P.translate_function(src, mod, *a, extra_skipped=mod.discarded, **kw)
-    parts.append(TF(asrc, _fn(atree, None, '_get_R'), '_get_R', lean_name='getR', params=[]))
-    parts.append(TF(esrc, _fn(etree, None, '_get_kB_over_h'), '_get_kB_over_h', lean_name='getKBOverH', params=[]))
-    parts.append(TF(asrc, _fn(atree, None, 'arrhenius_equation'), 'arrhenius_equation',
+    parts.append(TF(asrc, _fn(atree, None, '_get_R', repo, ARR), '_get_R', lean_name='getR', params=[]))
+    parts.append(TF(esrc, _fn(etree, None, '_get_kB_over_h', repo, EYR), '_get_kB_over_h', lean_name='getKBOverH', params=[]))
+    parts.append(TF(asrc, _fn(atree, None, 'arrhenius_equation', repo, ARR), 'arrhenius_equation',
                                       lean_name='arrheniusEquation', params=['A', 'Ea', 'T'], extra_calls=calls, inline_lets=True))
-    parts.append(TF(esrc, _fn(etree, None, 'eyring_equation'), 'eyring_equation',
+    parts.append(TF(esrc, _fn(etree, None, 'eyring_equation', repo, EYR), 'eyring_equation',
                                       lean_name='eyringEquation', params=['dH', 'dS', 'T'], extra_calls=calls, inline_lets=True))
-    parts.append(TF(asrc, _from_rateconst(atree), 'from_rateconst_A', lean_name='arrheniusFromRateconstA',
+    parts.append(TF(asrc, _from_rateconst(atree, repo, ARR), 'from_rateconst_A', lean_name='arrheniusFromRateconstA',
                                       params=['Ea', 'T', 'k'], extra_calls=calls, inline_lets=True,
                                       doc='first constructor argument of `ArrheniusParam.from_rateconst_at_T(Ea, (T, k))`'))
-    parts.append(TF(asrc, _fn(atree, 'ArrheniusParam', 'Ea_over_R'), 'Ea_over_R', lean_name='arrheniusEaOverR',
+    parts.append(TF(asrc, _fn(atree, 'ArrheniusParam', 'Ea_over_R', repo, ARR), 'Ea_over_R', lean_name='arrheniusEaOverR',
                                       params=[], objects=('self',), fixed=none2, extra_calls=calls, inline_lets=True))
-    parts.append(TF(esrc, _fn(etree, 'EyringParam', 'kB_h_times_exp_dS_R'), 'kB_h_times_exp_dS_R',
+    parts.append(TF(esrc, _fn(etree, 'EyringParam', 'kB_h_times_exp_dS_R', repo, EYR), 'kB_h_times_exp_dS_R',
                                       lean_name='eyringKBhExpDSR', params=[], objects=('self',), fixed=none2,
                                       extra_calls=calls, inline_lets=True))
-    parts.append(TF(esrc, _fn(etree, 'EyringParam', 'dH_over_R'), 'dH_over_R', lean_name='eyringDHOverR',
+    parts.append(TF(esrc, _fn(etree, 'EyringParam', 'dH_over_R', repo, EYR), 'dH_over_R', lean_name='eyringDHOverR',
                                       params=[], objects=('self',), fixed=none2, extra_calls=calls, inline_lets=True))
-    return {'FnRateConst.lean': P.wrap_module(parts, ARR + ', ' + EYR), 'RatesSrc.lean': _sources(repo)}
-
-
-# ---- source texts of the hand-modelled `__call__` bodies (guards) -----------------------------------------------
-# (file, path of nested def/class names, Lean name).  The text is `ast.unparse` of the body without its docstring:
-# insensitive to comments / layout, sensitive to any change of the code.  `Props/C16.lean` holds one `…_guard` theorem per
-# entry comparing it with the text the hand model `Model/Expr.call` was written from.
-SRC = [
-    ('chempy/kinetics/rates.py', ['MassAction', 'active_conc_prod'], 'srcMassActionConcProd'),
-    ('chempy/kinetics/rates.py', ['MassAction', 'rate_coeff'], 'srcMassActionRateCoeff'),
-    ('chempy/kinetics/rates.py', ['MassAction', '__call__'], 'srcMassActionCall'),
-    ('chempy/kinetics/rates.py', ['Arrhenius', '__call__'], 'srcArrheniusCall'),
-    ('chempy/kinetics/rates.py', ['Eyring', '__call__'], 'srcEyringCall'),
-    ('chempy/kinetics/rates.py', ['EyringHS', '__call__'], 'srcEyringHSCall'),
-    ('chempy/kinetics/rates.py', ['mk_Radiolytic', '_Radiolytic', '__call__'], 'srcRadiolyticCall'),
-    ('chempy/kinetics/rates.py', ['RampedTemp', '__call__'], 'srcRampedTempCall'),
-    ('chempy/kinetics/rates.py', ['SinTemp', '__call__'], 'srcSinTempCall'),
-    ('chempy/thermodynamics/expressions.py', ['MassActionEq', 'eq_const'], 'srcMassActionEqConst'),
-    ('chempy/thermodynamics/expressions.py', ['MassActionEq', '__call__'], 'srcMassActionEqCall'),
-    ('chempy/thermodynamics/expressions.py', ['GibbsEqConst', 'eq_const'], 'srcGibbsEqConst'),
-    ('chempy/util/_expr.py', ['create_Poly', '_poly'], 'srcPoly'),
-    ('chempy/util/_expr.py', ['create_Piecewise', '_pw'], 'srcPiecewise'),
-    ('chempy/util/_expr.py', ['Expr', 'from_callback', 'body'], 'srcFromCallbackBody'),
-    ('chempy/util/_expr.py', ['UnaryFunction', '__call__'], 'srcUnaryFunctionCall'),
-    ('chempy/util/_expr.py', ['Log10', '__call__'], 'srcLog10Call'),
-    ('chempy/util/_expr.py', ['_BinaryExpr', '__call__'], 'srcBinaryCall'),
-    ('chempy/util/_expr.py', ['_NegExpr', '__call__'], 'srcNegCall'),
-    ('chempy/util/_expr.py', ['Constant', '__call__'], 'srcConstantCall'),
-    ('chempy/util/_expr.py', ['Symbol', '__call__'], 'srcSymbolCall'),
-]
-
-
-def _descend(tree, path, rel):
-    node = tree
-    for name in path:
-        for n in ast.walk(node):
-            if n is not node and isinstance(n, (ast.FunctionDef, ast.ClassDef)) and n.name == name:
-                node = n
-                break
-        else:
-            raise ExtractError('%s: no %s' % (rel, '.'.join(path)))
-    return node
-
-
-def source_texts(repo):
-    out = []
-    cache = {}
-    for rel, path, lname in SRC:
-        if rel not in cache:
-            cache[rel] = parse(repo, rel)[1]
-        f = _descend(cache[rel], path, rel)
-        body = list(f.body)
-        if body and isinstance(body[0], ast.Expr) and isinstance(body[0].value, ast.Constant) and isinstance(body[0].value.value, str):
-            body = body[1:]
-        sig = ast.unparse(f.args)
-        text = 'def(%s): ' % sig + '; '.join(ast.unparse(st).replace('\n', ' ') for st in body)
-        out.append((lname, '.'.join(path), rel, ' '.join(text.split())))
-    return out
-
-
-def _sources(repo):
-    lines = [HEADER % 'chempy/kinetics/rates.py, chempy/thermodynamics/expressions.py, chempy/util/_expr.py',
-             'namespace ChemModel.Gen', '']
-    for lname, path, rel, text in source_texts(repo):
-        lines.append('/-- code of `%s` (%s), normalised by `ast.unparse` -/' % (path, rel))
-        lines.append('def %s : String := %s' % (lname, lean_str(text)))
-        lines.append('')
-    lines.append('end ChemModel.Gen')
-    return '\n'.join(lines) + '\n'
+    return {'FnRateConst.lean': P.wrap_module(parts, ARR + ', ' + EYR)}
 
